@@ -1198,9 +1198,54 @@ def run(ctx):
     ctx.extra["samples"] = samples or [{"chain": "-"}]
     nest2(ctx)
     closure_scope(ctx)
+    param_programs(ctx)
     from .. import macrolint
     macrolint.hygiene_rule(ctx, ["iter_eval", "for_each", "iter_collect_const"], facts.REPO)
     ctx.floor("TV", 400)
+
+
+PARAM_SHAPES = [
+    # name, item payload type (items are `&PAY`), closure parameter pattern, a u8 expression over its bindings
+    ("ident", "u8", "x", "*x"), ("wild", "u8", "_", "0"), ("deref", "u8", "&x", "x"), ("deref-mut", "u8", "&(mut x)", "{ x += 1; x }"),
+    ("tuple", "(u8, u8)", "&(a, b)", "a + b"), ("struct", "P", "&P { a, .. }", "a"), ("tuple-struct", "W", "&W(a, b)", "a + b"),
+    ("ref-tuple", "(u8, u8)", "(a, b)", "*a + *b"),
+]
+PARAM_MACROS = [
+    ("map", "pub fn f(s: &[PAY]) -> u8 { konst::iter::eval!(s, map(|PAT| EXPR), fold(0u8, |a, b| a + b)) }"),
+    ("filter_map", "pub fn f(s: &[PAY]) -> u8 { konst::iter::eval!(s, filter_map(|PAT| Some(EXPR)), fold(0u8, |a, b| a + b)) }"),
+    ("for_each", "pub fn f(s: &[PAY]) { konst::iter::eval!(s, for_each(|PAT| { let _ = EXPR; })) }"),
+    ("any", "pub fn f(s: &[PAY]) -> bool { konst::iter::eval!(s, any(|PAT| EXPR > 1)) }"),
+    ("all", "pub fn f(s: &[PAY]) -> bool { konst::iter::eval!(s, all(|PAT| EXPR > 1)) }"),
+    ("position", "pub fn f(s: &[PAY]) -> Option<usize> { konst::iter::eval!(s, position(|PAT| EXPR > 1)) }"),
+    ("rposition", "pub fn f(s: &[PAY]) -> Option<usize> { konst::iter::eval!(s, rposition(|PAT| EXPR > 1)) }"),
+    ("find_map", "pub fn f(s: &[PAY]) -> Option<u8> { konst::iter::eval!(s, find_map(|PAT| Some(EXPR))) }"),
+    ("fold", "pub fn f(s: &[PAY]) -> u8 { konst::iter::eval!(s, fold(0u8, |acc, PAT| acc + EXPR)) }"),
+    ("rfold", "pub fn f(s: &[PAY]) -> u8 { konst::iter::eval!(s, rfold(0u8, |acc, PAT| acc + EXPR)) }"),
+    ("for_each!", "pub fn f(s: &[PAY]) -> u8 { let mut t = 0u8; konst::iter::for_each!{PAT in s => { t += EXPR; }} t }"),
+]
+
+
+def param_programs(ctx):
+    """ACC-PARAM: the closure-taking methods of the DSL accept the irrefutable parameter patterns a closure given to the std method
+    may have (`|&x|`, `|&(mut x)|`, `|&(a, b)|`, `|&P { a, .. }|`, `|&W(a, b)|`, `|(a, b)|` through default binding modes, `_`): the
+    macros re-parse the closure's tokens, and a parameter matcher narrower than a pattern rejects valid chains.  (The two-parameter
+    closures of fold/rfold do not take a parenthesised pattern in second position on the pinned tree either; that shape is left out.)"""
+    pre = "#![allow(unused)]\npub struct P { pub a: u8, pub b: u8 }\npub struct W(pub u8, pub u8);\n"
+    progs = []
+    for mname, tpl in PARAM_MACROS:
+        for sname, pay, pat, expr in PARAM_SHAPES:
+            if mname in ("fold", "rfold") and sname == "ref-tuple":
+                continue
+            if ctx.tier == "quick" and sname in ("wild", "tuple-struct", "deref-mut") and mname not in ("map", "for_each!"):
+                continue
+            progs.append(("%s/%s" % (mname, sname), pre + tpl.replace("PAY", pay).replace("PAT", pat).replace("EXPR", expr) + "\n"))
+    res_ = facts.compile_many(progs, ctx.th)
+    for (n, src), r in zip(progs, res_):
+        if not r["ok"]:
+            ctx.violation("ACC-PARAM", n, "a valid chain is rejected: `%s`: %s" % (src.splitlines()[-1], "; ".join(e["message"][:120] for e in r["errors"][:2])),
+                          detail={"program": src})
+        ctx.instance("ACC-PARAM", n, sample={"program": src.splitlines()[-1], "accepted": r["ok"]})
+    ctx.floor("ACC-PARAM", len(progs))
 
 
 def tv(ctx):
